@@ -124,12 +124,17 @@ def run(ck, w):
                     ok_f = False
                     ck.fail(o, rb.name, "DirDeferral.%s not from entry.%s()" % (f, acc), "derives from %s" % flow.origin_summary(orig))
         # after a successful restore_dir the push is unavoidable before the next entry
+        # (a path that never takes a failure edge of a test on restore_dir's result - `if let Err`, `?`,
+        # `!is_ok()` - cannot get to the next entry, or to the change callback, without the push)
         edges, _, _ = rules.success_edges_union(rb, rd)
+        fails = rules.failure_edges_union(rb, rd)
         nxt = events_of(lib, rb, "index::stitch::Stitch::next")
         pb = {e.bb for e in pushes}
         unavoidable = True
-        for (u, v) in edges:
-            reach = rb.reachable(v, removed_nodes=pb)
+        for e in rd:
+            if e.target is None:
+                continue
+            reach = rb.reachable(e.target, removed_nodes=pb, removed_edges=fails)
             if any(n.bb in reach for n in nxt) or any(a.bb in reach for a in ad):
                 unavoidable = False
         if ok_f and unavoidable:
